@@ -16,6 +16,7 @@ import (
 
 	"grog/internal/label"
 	"grog/verif/lib/pbt"
+	"grog/verif/lib/refmodel"
 
 	"pgregory.net/rapid"
 )
@@ -35,135 +36,6 @@ var universe = func() []label.TargetLabel {
 	return u
 }()
 
-func validName(n string) bool {
-	if n == "" || n == "..." {
-		return false
-	}
-	for _, c := range n {
-		switch {
-		case c >= 'a' && c <= 'z', c >= 'A' && c <= 'Z', c >= '0' && c <= '9', c == '_', c == '-', c == '.':
-		default:
-			return false
-		}
-	}
-	return true
-}
-
-// validPkg: documented package paths: "" or seg(/seg)* with non-empty segments
-// made of name characters, none of them containing "..." (that is the wildcard).
-func validPkg(p string) bool {
-	if p == "" {
-		return true
-	}
-	for _, seg := range strings.Split(p, "/") {
-		if !validName(seg) || strings.Contains(seg, "...") {
-			return false
-		}
-	}
-	return true
-}
-
-// refLabel parses a label of the documented grammar. ok=false: outside grammar.
-func refLabel(cur, s string) (label.TargetLabel, bool) {
-	if strings.HasPrefix(s, ":") {
-		n := s[1:]
-		if !validName(n) {
-			return label.TargetLabel{}, false
-		}
-		return label.TargetLabel{Package: cur, Name: n}, true
-	}
-	if !strings.HasPrefix(s, "//") {
-		return label.TargetLabel{}, false
-	}
-	body := s[2:]
-	if i := strings.Index(body, ":"); i >= 0 {
-		p, n := body[:i], body[i+1:]
-		if !validPkg(p) || !validName(n) {
-			return label.TargetLabel{}, false
-		}
-		return label.TargetLabel{Package: p, Name: n}, true
-	}
-	if body == "" || !validPkg(body) {
-		return label.TargetLabel{}, false
-	}
-	segs := strings.Split(body, "/")
-	return label.TargetLabel{Package: body, Name: segs[len(segs)-1]}, true
-}
-
-type refPattern struct {
-	pkg       string
-	recursive bool
-	name      string // "" = any
-}
-
-func (p refPattern) matches(l label.TargetLabel) bool {
-	if p.recursive {
-		if p.pkg != "" && l.Package != p.pkg && !strings.HasPrefix(l.Package, p.pkg+"/") {
-			return false
-		}
-	} else if l.Package != p.pkg {
-		return false
-	}
-	return p.name == "" || l.Name == p.name
-}
-
-// refParsePattern: documented pattern grammar.
-func refParsePattern(cur, s string) (refPattern, bool) {
-	nameOf := func(n string) (string, bool) {
-		if n == "all" || n == "..." {
-			return "", true
-		}
-		return n, validName(n)
-	}
-	if strings.HasPrefix(s, ":") {
-		n, ok := nameOf(s[1:])
-		return refPattern{pkg: cur, name: n}, ok
-	}
-	if !strings.HasPrefix(s, "//") {
-		return refPattern{}, false
-	}
-	body := s[2:]
-	pkgPart, namePart, hasName := body, "", false
-	if i := strings.Index(body, ":"); i >= 0 {
-		pkgPart, namePart, hasName = body[:i], body[i+1:], true
-	}
-	rp := refPattern{}
-	if pkgPart == "..." {
-		rp.recursive, rp.pkg = true, ""
-	} else if strings.HasSuffix(pkgPart, "/...") {
-		rp.recursive, rp.pkg = true, strings.TrimSuffix(pkgPart, "/...")
-		if rp.pkg == "" || !validPkg(rp.pkg) {
-			return refPattern{}, false
-		}
-	} else {
-		rp.pkg = pkgPart
-		if !validPkg(rp.pkg) {
-			return refPattern{}, false
-		}
-	}
-	if hasName {
-		n, ok := nameOf(namePart)
-		if !ok {
-			return refPattern{}, false
-		}
-		rp.name = n
-		return rp, true
-	}
-	if rp.recursive {
-		return rp, true
-	}
-	// shorthand //a/b == //a/b:b
-	if rp.pkg == "" {
-		return refPattern{}, false
-	}
-	segs := strings.Split(rp.pkg, "/")
-	rp.name = segs[len(segs)-1]
-	if rp.name == "all" { // "//all" would read as //all:all = every target of package all; leave to the round-trip oracle
-		return refPattern{}, false
-	}
-	return rp, true
-}
-
 func matchSet(p label.TargetPattern) string {
 	var b strings.Builder
 	for _, l := range universe {
@@ -180,7 +52,7 @@ func run(c Case) (pbt.Result, error) {
 	res := pbt.Result{}
 	// ---- as a label ----
 	l, lerr := label.ParseTargetLabel(c.Cur, c.S)
-	ref, inGrammar := refLabel(c.Cur, c.S)
+	ref, inGrammar := refmodel.RefLabel(c.Cur, c.S)
 	if inGrammar {
 		res.Classes = append(res.Classes, "label-in-grammar")
 		if lerr != nil {
@@ -205,14 +77,14 @@ func run(c Case) (pbt.Result, error) {
 	}
 	// ---- as a pattern ----
 	p, perr := label.ParseTargetPattern(c.Cur, c.S)
-	rp, pInGrammar := refParsePattern(c.Cur, c.S)
+	rp, pInGrammar := refmodel.RefParsePattern(c.Cur, c.S)
 	if pInGrammar {
 		res.Classes = append(res.Classes, "pattern-in-grammar")
 		if perr != nil {
 			return res, pbt.Fail("pattern-rejects-documented", "pattern %q (cur %q) is in the documented grammar but was rejected: %v", c.S, c.Cur, perr)
 		}
 		for _, ul := range universe {
-			if got, want := p.Matches(ul), rp.matches(ul); got != want {
+			if got, want := p.Matches(ul), rp.Matches(ul); got != want {
 				return res, pbt.Fail("pattern-match-differs", "pattern %q (cur %q) on %s: got %v want %v", c.S, c.Cur, ul, got, want)
 			}
 		}
